@@ -37,6 +37,7 @@ Eval(cc) ==
   IN [ comp |-> POut(Comp(a, b)), ominus |-> POut(Ominus(a, b)), inv |-> POut(PInv(a)), act |-> VOut(Act(a, pt)),
        mat_a |-> MOut(Mat(a)), mat_ab |-> MOut(Mat(Comp(a, b))), abc |-> POut(Comp(Comp(a, b), c)),
        boxplus |-> POut(Boxplus(a, dt, dr)), ident |-> POut(Ident(cc.k)),
+       normalize |-> IF cc.k = "SE3" THEN NormalizeQ(cc.nq) ELSE <<>>,
        laws |-> IF cc.laws THEN Laws(a, b, c, pt) ELSE [skipped |-> TRUE],
        unit |-> UnitRot(a) /\ UnitRot(b) /\ UnitRot(c)
                 /\ (cc.k = "SE3" => QIsSquare((D1 (-) ((dr[1]**dr[1]) (+) (dr[2]**dr[2]) (+) (dr[3]**dr[3]))).v))
